@@ -122,20 +122,20 @@ Definition bcast_ok (w size : nat) : bool := (w =? size)%nat || (w =? 1)%nat.
 Definition bcast_row (size : nat) (row : list Z) : list Z :=
   if (length row =? size)%nat then row else repeat (hd 0 row) size.
 
-(* PtnFilterChord.filter:  [data in self.ar]  is numpy's  (self.ar == data).any()  *)
+(* PtnFilterChord.filter:  hit = bool((self.ar == data).all(axis=1).any())  -  [data] is a row of the
+   filter array (after numpy broadcasting); [invert_filter] negates *)
 Definition chord_filter (f : nfilter) (data : list Z) : option bool :=
   if bcast_ok (f_w f) (length data)
   then Some (xorb (f_inv f)
-               (existsb (fun row => any2 Z.eqb (bcast_row (length data) row) data) (f_ar f)))
+               (existsb (fun row => list_eqb Z.eqb (bcast_row (length data) row) data) (f_ar f)))
   else None.
 
-(* NOT the code: the smallest repair of the defect above, (self.ar == data).all(axis=1).any(), i.e. row
-   membership.  Used only (a) to state what the repaired code satisfies and (b) by the runner, which accepts
-   an implementation that agrees with either variant, so that the check stays green once the defect is repaired. *)
-Definition chord_filter_rows (f : nfilter) (data : list Z) : option bool :=
+(* OLD variant, NOT the code any more (before commit 1bc6769):  [data in self.ar], which numpy evaluates as
+   (self.ar == data).any()  - some position of some row equal.  Kept only for the refutation witnesses. *)
+Definition chord_filter_old_any (f : nfilter) (data : list Z) : option bool :=
   if bcast_ok (f_w f) (length data)
   then Some (xorb (f_inv f)
-               (existsb (fun row => list_eqb Z.eqb (bcast_row (length data) row) data) (f_ar f)))
+               (existsb (fun row => any2 Z.eqb (bcast_row (length data) row) data) (f_ar f)))
   else None.
 
 (* sum(row * keys ** arange(n-1, -1, -1)) *)
